@@ -581,6 +581,36 @@ def monitorCall (cfg : Cfg) (m : MonSt) (name : String) (ln : Nat) (op : List St
             r.viol s!"C06 accepted_publish_dropped@{site}" s!"{here}: a QoS {p.qos} PUBLISH (id {id}) was accepted without an error event but neither requested for sending nor stored: events=[{evS}] store ids={stA}" else r
         else r
       | _, _ => r
+    -- a stored packet keeps its identifier in use
+    let loose := stA.filter fun id => ivContains after id
+    let r := if !loose.isEmpty then
+        r.viol s!"C06 stored_id_not_held@{site}" s!"{here}: stored packets {loose} are in the store but their identifiers are free (store {stA}, free ids {g "pidfree"}): {evS}" else r
+    -- C16: after restore_packets into an object without session state, the identifiers in use are
+    -- exactly the store keys and the wait sets are exactly the stored ids by kind
+    let r := match op with
+      | "restore_p" :: _ =>
+        let wasEmpty := m.prev.isEmpty ∨ (stB.isEmpty ∧ gp "puback" = "" ∧ gp "pubrec" = "" ∧ gp "pubcomp" = "" ∧ gp "suback" = "" ∧ gp "unsuback" = "")
+        let ents : List (Nat × Nat × Nat) :=
+          let x := g "store"
+          if x = "-" ∨ x = "" then [] else (x.splitOn "};").filterMap fun (e : String) =>
+            match e.splitOn ":{" with
+            | [i, rest] =>
+              let kv := parseKV rest
+              (match i.toNat?, (kvGet kv "k").toNat?, (kvGet kv "q").toNat? with
+               | some i, some k, some q => some (i, k, q)
+               | _, _, _ => none)
+            | _ => none
+        let want (k q : Nat) : List Nat := (ents.filter fun (e : Nat × Nat × Nat) => e.2.1 = k ∧ (k ≠ 3 ∨ e.2.2 = q)).map (fun (e : Nat × Nat × Nat) => e.1)
+        let sameSet (a b : List Nat) : Bool := a.all (fun x => b.contains x) && b.all (fun x => a.contains x)
+        let entIds : List Nat := ents.map (fun (e : Nat × Nat × Nat) => e.1)
+        let bad := (if !sameSet (idsOf (g "puback")) (want 3 1) then ["puback"] else []) ++
+                   (if !sameSet (idsOf (g "pubrec")) (want 3 2) then ["pubrec"] else []) ++
+                   (if !sameSet (idsOf (g "pubcomp")) (want 6 0) then ["pubcomp"] else []) ++
+                   (if entIds.any (fun id => ivContains after id) then ["stored id free"] else []) ++
+                   (if entIds.eraseDups.length ≠ ents.length then ["duplicate id in store"] else [])
+        if wasEmpty ∧ !bad.isEmpty then
+          r.viol s!"C16 restore_inconsistent@restore_p" s!"{here}: after restore_packets the store holds {ents} (id, kind, QoS) but {bad} disagree: puback=[{g "puback"}] pubrec=[{g "pubrec"}] pubcomp=[{g "pubcomp"}] free=[{g "pidfree"}]" else r
+      | _ => r
     -- (id, kind) entries: a PUBLISH replaced by its PUBREL is a new entry (appended at the back)
     let storeEntries (x : String) : List Nat :=
       if x = "-" ∨ x = "" then [] else (x.splitOn "};").filterMap fun (e : String) =>
